@@ -54,6 +54,18 @@ def run (ctx):
   mod = repo.mod(RC)
   sch = repo.cls(RC, 'Scheduler'); hub = repo.cls(RC, 'SelectHub'); bt = repo.cls(RC, 'BaseTask'); bo = repo.cls(RC, 'BlockingOperation')
   cyc = q.find_method(repo, sch, 'cycle', 'C06'); ctx.analysed(cyc)
+  # the rules below speak of the task `t` and of what it yielded, `rv`: whatever the two locals are called in the tree under analysis,
+  # they are the receiver and the target of the one `<yielded> = <task>.execute()` statement
+  for st_ in ast.walk(cyc.node):
+    if isinstance(st_, ast.Assign) and len(st_.targets) == 1 and isinstance(st_.targets[0], ast.Name) and isinstance(st_.value, ast.Call) and call_name(st_.value) == 'execute' \
+       and not st_.value.args and isinstance(st_.value.func, ast.Attribute) and isinstance(st_.value.func.value, ast.Name):
+      ren_ = {st_.targets[0].id: 'rv', st_.value.func.value.id: 't'}
+      used_ = set(n_.id for n_ in ast.walk(cyc.node) if isinstance(n_, ast.Name))
+      for old_, new_ in ren_.items():
+        if old_ != new_ and new_ not in used_:
+          for n_ in ast.walk(cyc.node):
+            if isinstance(n_, ast.Name) and n_.id == old_: n_.id = new_
+      break
   g = q.cfg_of(cyc)
   # ---- D2 containment -----------------------------------------------------------------------
   tex = g.nodes_with_call(lambda c: call_name(c) == 'execute' and norm(c.func.value) == 't')
@@ -238,6 +250,9 @@ def run (ctx):
     r_nf = q.reach_under(repo, mod, g2, q.Env({}, none_false), hub)
     for n in tstores:
       if not any('CYCLE' in norm(x) or isinstance(x, ast.Constant) for x in ast.walk(n.ast.value)): continue
+      if not any(isinstance(e_, ast.Compare) and (none_false[0][0](e_) or none_false[1][0](e_)) for e_ in ast.walk(sel.node)):
+        # "no waiter has a deadline" is not represented by `timeout is None` in this tree (e.g. one Optional (deadline, task) pair)
+        ctx.undecided('R-DOM', sel, "the default wait replaces the select timeout only when no waiter has a deadline (`%s`)" % n.text(40), "no `timeout is None` test: the representation of 'no deadline' is not recognised", (mod, n.ast), 'D4'); continue
       ctx.ob('R-DOM', sel, "the default wait replaces the select timeout only when no waiter has a deadline (`%s`)" % n.text(40), n not in r_nf, "only under `timeout is None`" if n not in r_nf else
              "`%s` is reachable although a waiter's deadline was chosen as the timeout: select() comes back empty after the shorter default wait and the nearest-deadline waiter is resumed as if its time had come - "
              "a task that asked to sleep longer than the default wait is resumed early whenever the hub is otherwise idle" % n.text(40), (mod, n.ast), 'D4')
@@ -398,14 +413,34 @@ def run (ctx):
     env = q.Env({'self._cancelled': True})
     r = q.reach_under_cp(repo, mod, g3, env, tm, start=ylds[0])
     ctx.ob('R-DOM', tr, "a timer cancelled while sleeping does not fire", not any(c in r for c in cbn), "callback unreachable once cancelled" if not any(c in r for c in cbn) else "cancel is not re-checked after the wake", tr, 'D5')
-    for what, ex in (("non-recurring timer fires once", {'self._cancelled': False, 'self._recurring': False, 'rv is False': False}),
-                     ("a callback returning False stops a self-stoppable timer", {'self._cancelled': False, 'self._recurring': True, 'self._self_stoppable': True, 'rv is False': True})):
+    # how "recurring" is represented is the constructor's business: its state for recurring=False / True, by evaluation
+    def ctor_state (recurring):
+      if ti is None: return None
+      gi_ = q.cfg_of(ti)
+      ex_ = {'timeToWake': 5, 'callback': 'cb', 'absoluteTime': False, 'recurring': recurring, 'args': (), 'kw': {}, 'scheduler': None, 'started': False, 'selfStoppable': True}
+      try: ps_ = q.paths_under(repo, mod, gi_, q.Env(ex_), gi_.entry, [gi_.exit], tm, limit=40)
+      except Exception: return None
+      if len(ps_) != 1: return None
+      return dict((k_, v_) for k_, v_ in ps_[0][1].exact.items() if isinstance(k_, str) and k_.startswith('self.'))
+    st_f, st_t = ctor_state(False), ctor_state(True)
+    if st_f is None or st_t is None or '_recurring' in norm(tr.node):
+      st_f = {'self._recurring': False}; st_t = {'self._recurring': True, 'self._self_stoppable': True}
+    for what, ex in (("non-recurring timer fires once", dict(st_f, **{'self._cancelled': False, 'rv is False': False})),
+                     ("a callback returning False stops a self-stoppable timer", dict(st_t, **{'self._cancelled': False, 'self._self_stoppable': True, 'rv is False': True}))):
       again = any(p_[-1] is ylds[0] for p_, e_ in q.paths_under(repo, mod, g3, q.Env(ex), cbn[0], [ylds[0], g3.exit, g3.raise_exit], tm, limit=200))
       ctx.ob('R-DOM', tr, what, not again, "loop head unreachable after the callback" if not again else "the timer loops again", tr, 'D5')
-    rearm_ = any(p_[-1] is ylds[0] for p_, e_ in q.paths_under(repo, mod, g3, q.Env({'self._cancelled': False, 'self._recurring': True, 'rv is False': False}), cbn[0], [ylds[0], g3.exit, g3.raise_exit], tm, limit=200))
+    rearm_ = any(p_[-1] is ylds[0] for p_, e_ in q.paths_under(repo, mod, g3, q.Env(dict(st_t, **{'self._cancelled': False, 'rv is False': False})), cbn[0], [ylds[0], g3.exit, g3.raise_exit], tm, limit=200))
     ctx.ob('R-DOM', tr, "a recurring timer re-arms", rearm_, "the sleep is reached again" if rearm_ else "a recurring timer whose callback did not ask to stop never sleeps again", tr, 'D5')
     nx = [st for t, v, st, k in q.stores_in(tr.node) if norm(t) == 'self._next']
-    ctx.ob('R-AGREE', tr, "the next deadline is now + interval", bool(nx) and norm(nx[0].value) == 'time.time() + self._interval', norm(nx[0]) if nx else "?", tr, 'D5')
+    good_nx = bool(nx) and norm(nx[0].value) == 'time.time() + self._interval'
+    if nx and not good_nx:
+      # another spelling: evaluate it for a recurring timer of interval 5 at time 100
+      def clk_ (call, env=None): return (True, 100) if norm(call.func) == 'time.time' else (False, None)
+      try:
+        v_ = q.eval_env2(repo, mod, nx[0].value, q.Env(dict(st_t), [], clk_), tm)
+        good_nx = (v_ == 105) if isinstance(v_, (int, float)) else None
+      except Exception: good_nx = None
+    ctx.ob('R-AGREE', tr, "the next deadline is now + interval", good_nx, norm(nx[0]) if nx else "?", tr, 'D5')
     sy = [x for n in ylds for x in ast.walk(n.ast) if isinstance(x, ast.Call) and call_name(x) == 'Sleep']
     ctx.ob('R-AGREE', tr, "the timer sleeps until its absolute deadline", bool(sy) and norm(kwarg(sy[0], 'timeToWake', 0)) == 'self._next' and norm(kwarg(sy[0], 'absoluteTime', 1)) == 'True', norm(sy[0]) if sy else "?", tr, 'D5')
   # ---- D6 sub-task return ----------------------------------------------------------------------------------
